@@ -459,7 +459,8 @@ fn ops(reduced: bool) -> Vec<Op> {
         Op::Clear(7),
         Op::Iter(vec![((0, 0), 1), ((5, 4), 2), ((-1, 0), 3), ((0, 0), 4), ((2, 2), 5), ((6, 0), 6), ((-2, 1), 8)]),
         Op::Iter(vec![]),
-        Op::Iter(vec![((1, 1), 9), ((3, 2), 9), ((2, 1), 250), ((1, 2), 0)]),
+        // colours that return to an earlier one within the call: 9 9 250 0 9 250 9
+        Op::Iter(vec![((1, 1), 9), ((3, 2), 9), ((2, 1), 250), ((1, 2), 0), ((0, 1), 9), ((2, 2), 250), ((3, 1), 9)]),
     ];
     let areas: Vec<R4> = if reduced { vec![(0, 0, 3, 2), (-2, -1, 5, 4)] } else { vec![(0, 0, 3, 2), (-2, -1, 5, 4), (2, 1, 4, 3), (1, 1, 0, 2), (30, 30, 2, 2)] };
     for a in areas {
